@@ -283,7 +283,7 @@ def concrete_vals_of(src):
 # --------------------------------------------------------------------------------------
 # running one harness
 # --------------------------------------------------------------------------------------
-def harness_cmd(h, playback=False, failed=()):
+def harness_cmd(h, playback=False, failed=(), sliced=False):
     cmd = list(KANI_BASE)
     # the counterexample of a failed assertion / panic does not need CBMC's pointer checks (they triple the
     # formula and made playback runs of heap-heavy harnesses run out of memory)
@@ -297,7 +297,7 @@ def harness_cmd(h, playback=False, failed=()):
     if playback:
         cmd += ["-Z", "concrete-playback", "--concrete-playback=print"]
     cmd += ["--harness", h.module + "::" + h.name, "--exact"]
-    if playback:
+    if playback and sliced:
         # Kani's playback mode does not slice the formula (41 M instead of 1.2 M variables on a ring-buffer harness:
         # out of memory, no test generated); slicing only leaves inputs irrelevant to the failing check unconstrained
         cmd += ["--cbmc-args", "--slice-formula"]
@@ -351,9 +351,17 @@ def replay_natively(h, crate, logdir, failed, tier):
     out = {"reproduced": False, "tests": [], "reason": ""}
     log = os.path.join(logdir, h.name + ".playback.log")
     timeout = 3 * (h.timeout or DEFAULT_TIMEOUT[tier])
+    # stage 1: exact trace (all inputs); stage 2, only if that produced no test (typically out of memory): sliced trace
     rc, to = run(harness_cmd(h, playback=True, failed=failed), crate, log, timeout, max(MEM_LIMIT_KB, 40 * 1024 * 1024))
     text = open(log, errors="replace").read()
     tests = [t for t in parse_playback(text) if t[0] != "cover"]
+    out["playback_sliced"] = False
+    if not tests:
+        log = os.path.join(logdir, h.name + ".playback.sliced.log")
+        rc, to = run(harness_cmd(h, playback=True, failed=failed, sliced=True), crate, log, timeout, max(MEM_LIMIT_KB, 40 * 1024 * 1024))
+        text = open(log, errors="replace").read()
+        tests = [t for t in parse_playback(text) if t[0] != "cover"]
+        out["playback_sliced"] = True
     if not tests:
         out["reason"] = "Kani produced no concrete playback test (timeout=%s)" % to
         return out
@@ -376,38 +384,65 @@ def replay_natively(h, crate, logdir, failed, tier):
     if gen not in txt:
         txt = txt.replace(marker, marker + "\tinclude!(\"%s\");\n" % gen, 1)
         open(src, "w").write(txt)
+    def native_run(t, src_text, profile):
+        """writes the (possibly padded) test, runs it natively, returns (passed, failed, hung, panic message)"""
+        with open(gen, "w") as f:
+            for t2 in tests:
+                f.write((src_text if t2 is t else t2[3]) + "\n")
+        plog = os.path.join(logdir, "%s.native.%s.log" % (t[2], profile))
+        cmd = ["cargo", "kani", "playback", "--no-default-features", "--lib", "-Z", "concrete-playback"]
+        env = dict(ENV)
+        # native replays run the REAL libm / kernels (stubs do not exist natively): harnesses switch
+        # from their spy/uninterpreted oracle to a plain reference oracle under cfg(kv_native)
+        env["RUSTFLAGS"] = ENV["RUSTFLAGS"] + " --cfg kv_native"
+        if profile == "release":
+            # `cargo kani playback` has no --release: give the dev profile release semantics
+            env.update({"CARGO_PROFILE_DEV_OPT_LEVEL": "3", "CARGO_PROFILE_DEV_DEBUG_ASSERTIONS": "false",
+                        "CARGO_PROFILE_DEV_OVERFLOW_CHECKS": "false", "CARGO_PROFILE_DEV_DEBUG": "false"})
+        cmd += ["--", "--exact", h.module + "::" + t[2]]
+        rc, to = run(cmd, crate, plog, 600, env=env)
+        ptxt = open(plog, errors="replace").read()
+        passed = re.search(r"test result: ok\. 1 passed", ptxt) is not None
+        failed_native = re.search(r"test result: FAILED\. 0 passed; 1 failed", ptxt) is not None
+        msg = ""
+        mm = re.search(r"panicked at ([^\n]*)\n([^\n]*(?:\n[^\n]*)?)", ptxt)
+        if mm:
+            msg = (mm.group(1) + " " + mm.group(2)).strip()
+        return passed, failed_native, to, msg
+
     for profile in ("dev", "release"):
         for t in tests:
-            plog = os.path.join(logdir, "%s.native.%s.log" % (t[2], profile))
-            cmd = ["cargo", "kani", "playback", "--no-default-features", "--lib", "-Z", "concrete-playback"]
-            env = dict(ENV)
-            # native replays run the REAL libm / kernels (stubs do not exist natively): harnesses switch
-            # from their spy/uninterpreted oracle to a plain reference oracle under cfg(kv_native)
-            env["RUSTFLAGS"] = ENV["RUSTFLAGS"] + " --cfg kv_native"
-            if profile == "release":
-                # `cargo kani playback` has no --release: give the dev profile release semantics
-                env.update({"CARGO_PROFILE_DEV_OPT_LEVEL": "3", "CARGO_PROFILE_DEV_DEBUG_ASSERTIONS": "false",
-                            "CARGO_PROFILE_DEV_OVERFLOW_CHECKS": "false", "CARGO_PROFILE_DEV_DEBUG": "false"})
-            cmd += ["--", "--exact", h.module + "::" + t[2]]
-            rc, to = run(cmd, crate, plog, 600 if t is tests[0] else 180, env=env)
-            ptxt = open(plog, errors="replace").read()
-            passed = re.search(r"test result: ok\. 1 passed", ptxt) is not None
-            failed_native = re.search(r"test result: FAILED\. 0 passed; 1 failed", ptxt) is not None
-            hung = to
-            msg = ""
-            mm = re.search(r"panicked at ([^\n]*)\n([^\n]*)", ptxt)
-            if mm:
-                msg = (mm.group(1) + " " + mm.group(2)).strip()
-            # stubs draw their nondeterministic values AFTER the harness inputs; natively they are not called,
-            # so Kani's playback runtime complains about left-over values once the harness has run to its end
-            # WITHOUT failing: that is a native PASS of the harness, not a reproduction
-            if failed_native and "concrete_playback.rs" in msg and not hung:
+            src_text = t[3]
+            pads = 0
+            while True:
+                passed, failed_native, hung, msg = native_run(t, src_text, profile)
+                # the playback run is sliced: inputs irrelevant to the failing check are missing from the trace. Missing
+                # trailing values are padded with zeros of the size Kani's runtime asks for (any admissible input that
+                # makes the real code fail the harness natively is a genuine counterexample, however it was found).
+                if failed_native and "Not enough det vals found" in msg and pads < 64:
+                    src_text = re.sub(r"(\n    \];\n    kani::concrete_playback_run)", "\n        vec![0],\\1", src_text, count=1)
+                    pads += 1
+                    continue
+                mm2 = re.search(r"Expected (\d+) bytes in the following det vals vec", msg)
+                if failed_native and mm2 and pads > 0 and pads < 64 and "vec![0],\n    ];" in src_text:
+                    src_text = src_text.replace("vec![0],\n    ];", "vec![%s],\n    ];" % ", ".join(["0"] * int(mm2.group(1))), 1)
+                    pads += 1
+                    continue
+                break
+            # a panic raised inside Kani's playback runtime is not a failure of the code under test:
+            #  - "values left over": stubs drew values that the native run (real libm/kernels) never consumes -> native PASS
+            #  - kani::assume violated / size mismatch: the (padded or misaligned) inputs are not admissible -> inconclusive
+            in_kani = ("library/kani" in msg) or ("kani::assume" in msg)
+            if failed_native and in_kani and not hung:
                 failed_native = False
                 passed = "left over" in msg
             out["tests"].append({"check": t[1], "test": t[2], "profile": profile,
                                  "native_fails": bool(failed_native or hung), "hang": bool(hung),
-                                 "native_passes": bool(passed), "panic": msg[:300],
-                                 "values": concrete_vals_of(t[3])[:24]})
+                                 "native_passes": bool(passed), "panic": msg[:300], "zero_padded_inputs": pads,
+                                 "values": concrete_vals_of(src_text)[:24]})
+            if t[3] != src_text:
+                t_list = list(t); t_list[3] = src_text
+                tests[tests.index(t)] = tuple(t_list)
     out["reproduced"] = any(x["native_fails"] for x in out["tests"])
     if not out["reproduced"]:
         out["reason"] = "counterexample does not fail natively (encoding/stub artefact)"
